@@ -72,7 +72,15 @@ C16_NoEarly ==
    Clause("C16", "NothingLeavesEarly", NoPanic /\ ev'.kind \in {"DeliverTx", "EndBlock", "Commit", "CheckTx"} /\ "st" \in DOMAIN ev',
           GoneFrozenItems = {},
           [at |-> Where, gone |-> GoneFrozenItems])
-C16_Step == C16_Unbond /\ C16_Lock /\ C16_Move /\ C16_LockStake /\ C16_OtherTx /\ C16_Mature /\ C16_MoveArrives /\ C16_NoEarly
+\* a moving fund stays a moving fund with the same target, owner, coin and due block until it matures (only its value may be cut by a punishment)
+C16_TargetKept ==
+   Clause("C16", "MovingFundsKeepTheirTarget", NoPanic /\ "st" \in DOMAIN ev' /\ ev'.kind \in {"BeginBlock", "DeliverTx", "EndBlock", "Commit"}
+                 /\ (\E f \in Range(st.frozen) : f.to # 0),
+          \A f \in Range(st.frozen) :
+             (f.to # 0 /\ ~(IsKind("BeginBlock") /\ f.due = H)) =>
+                \E g \in Range(st'.frozen) : g.due = f.due /\ g.o = f.o /\ g.c = f.c /\ g.to = f.to /\ g.id = f.id,
+          [at |-> Where, moving |-> SelectSeq(st.frozen, LAMBDA f : f.to # 0), after |-> SelectSeq(st'.frozen, LAMBDA f : f.o \in {x.o : x \in Range(SelectSeq(st.frozen, LAMBDA y : y.to # 0))})])
+C16_Step == C16_Unbond /\ C16_Lock /\ C16_Move /\ C16_LockStake /\ C16_OtherTx /\ C16_Mature /\ C16_MoveArrives /\ C16_NoEarly /\ C16_TargetKept
 
 \* ======================================================================== C18
 ValSeq(s) == s.vals
